@@ -200,6 +200,7 @@ def run(F, ck, tier):
                 continue
             seen.add(key)
             ck.ob('R18.3', key, False, '%s uses the proof in %s() %s: a malformed proof reaches this call unvalidated' % (fn.qual, e.q, 'before the shape validator runs' if validated else '(there is no validation at all on this path)'), e.loc())
+    canonical_boundary(F, ck)
     assert_sites(F, ck, C)
     chunk_sites(F, ck, C)
     if tier == 'thorough':
@@ -209,6 +210,62 @@ def run(F, ck, tier):
     ck.undecided += ['panic-freedom of the whole verifier after validation (needs length reasoning; see thorough census)', 'that accepted proofs are valid (C02/C03/C05)']
     return ('Decides structural necessary conditions of C18: totality of validators and decoders w.r.t. input-derived operands, exhaustive length pinning of the proof type family, '
             'validate-before-use at each entry point and absence of input-sized allocation. Does not decide panic-freedom of all post-validation code.')
+
+
+def canonical_boundary(F, ck):
+    """R18.8: the field decoder rejects exactly the non-canonical encodings: it errs when n - ORDER >= 0 (normalised), so that
+    `from_canonical_u64` (which asserts n < ORDER in debug builds and wraps silently in release builds) never sees n >= ORDER"""
+    from . import poly
+    from .facts import walk
+    ck.rule('R18.8', 'Read::read_field returns Err exactly when the decoded word n satisfies n - ORDER >= 0 (comparison normalised algebraically)')
+    c = [f for f in F.find('Read::read_field', crate='plonky2') if f.body is not None]
+    if len(c) != 1:
+        ck.ob('R18.8', 'anchor', False, 'ANCHOR-MISSING Read::read_field')
+        return
+    fn = c[0]
+    E = poly.Ev(F)
+    found = None
+    for n in walk(fn.body):
+        if n.get('k') != 'If':
+            continue
+        errs_then = flow.diverges_with_err(n['th']) or flow.tail_is_err(n['th'])
+        errs_else = n.get('el') is not None and (flow.diverges_with_err(n['el']) or flow.tail_is_err(n['el']))
+        if not (errs_then or errs_else):
+            continue
+        cnd = n['c']
+        neg = errs_else and not errs_then      # error when the condition is FALSE
+        while cnd.get('k') == 'Un' and cnd.get('op') == 'Not':
+            neg = not neg
+            cnd = cnd['e']
+        if cnd.get('k') != 'Bin' or cnd['op'] not in ('Lt', 'Le', 'Gt', 'Ge'):
+            continue
+        if not any(x.get('k') == 'Def' and x['d'].split('::')[-1] == 'ORDER' for x in walk(cnd)):
+            continue
+        env = {}
+        for x in walk(cnd):
+            if x.get('k') == 'Local':
+                env[x['id']] = poly.sym('n')
+        try:
+            d = poly.add(E.ev(fn, cnd['l'], env, 1), E.ev(fn, cnd['r'], env, 1), -1)
+        except poly.Unknown:
+            continue
+        op = cnd['op']
+        if neg:
+            op = {'Lt': 'Ge', 'Le': 'Gt', 'Gt': 'Le', 'Ge': 'Lt'}[op]
+        # error-condition  l op r  ->  bring to  e >= 0
+        if op in ('Lt', 'Le'):
+            d = poly.add({}, d, -1)
+            op = 'Gt' if op == 'Lt' else 'Ge'
+        if op == 'Gt':
+            d = poly.add(d, poly.const(1), -1)
+        found = (d, n)
+    if found is None:
+        ck.ob('R18.8', 'read_field.canonical', False, 'Read::read_field no longer rejects words >= ORDER with an error', '%s:%d' % (fn.file, fn.line))
+        return
+    d, n = found
+    ok = d == {('n',): 1, ('ORDER',): -1}
+    ck.ob('R18.8', 'read_field.canonical', ok, 'errs exactly when n - ORDER >= 0' if ok else
+          'Read::read_field errs when %s >= 0 instead of n - ORDER >= 0: the word equal to the field order (or other non-canonical words) is passed to from_canonical_u64, which panics in debug builds and accepts a second encoding of the same element in release builds' % poly.show(d), n.get('s'))
 
 
 def assert_sites(F, ck, C):
